@@ -1,6 +1,7 @@
 INIT OInit
 NEXT ONext
 INVARIANT Harness_Instantiated
+INVARIANT Conf_DclineLaw
 INVARIANT C16_VoltageLimits
 INVARIANT C16_ActiveLimits
 INVARIANT C16_ReactiveLimits
